@@ -67,9 +67,11 @@ pub(crate) fn values_are_equal(left: &CalcResult, right: &CalcResult) -> bool {
 pub(crate) fn compare_values(left: &CalcResult, right: &CalcResult) -> i32 {
     match (left, right) {
         (CalcResult::Number(value1), CalcResult::Number(value2)) => {
+            // Numbers are compared with 15 significant digits, like Excel. (An additional
+            // absolute tolerance would make tiny numbers equal to 0 and `=` non-transitive.)
             let value1 = to_excel_precision(*value1, 15);
             let value2 = to_excel_precision(*value2, 15);
-            if (value2 - value1).abs() < f64::EPSILON {
+            if value1 == value2 {
                 return 0;
             }
             if value1 < value2 {
